@@ -80,6 +80,7 @@ CONSTANTS
   UpdNames, UpdDurs, UpdRFs, UpdSGDs,  \* optional arguments of UpdateRetentionPolicy (may contain NoName / None)
   Ixs,         \* residues offered for the raft index seen by CreateShardGroup
   InitKind,    \* "empty" or the name of a base value below
+  SameAddr,    \* TRUE: node commands are offered with HTTP address = TCP address only (smaller exhaustive runs)
   Addrs,       \* node addresses (used for both the HTTP and the TCP address)
   Times,       \* timestamps (units)
   RFs,         \* replication factors offered
@@ -458,11 +459,12 @@ ArgsPruneShardGroups(d) == {[x |-> 0]}
 ArgsDropShard(d) == [id : ShardIds(d)]
 ArgsCopyShardOwner(d) == [id : ShardIds(d), node : NodeIds(d)]
 ArgsRemoveShardOwner(d) == [id : ShardIds(d), node : NodeIds(d)]
-ArgsCreateDataNode(d) == [addr : Addrs, tcp : Addrs]
-ArgsUpdateDataNode(d) == [id : NodeIds(d), addr : Addrs, tcp : Addrs]
+AddrPairs == IF SameAddr THEN {[addr |-> a, tcp |-> a] : a \in Addrs} ELSE [addr : Addrs, tcp : Addrs]
+ArgsCreateDataNode(d) == AddrPairs
+ArgsUpdateDataNode(d) == {[id |-> i, addr |-> p.addr, tcp |-> p.tcp] : i \in NodeIds(d), p \in AddrPairs}
 ArgsDeleteDataNode(d) == [id : NodeIds(d)]
-ArgsCreateMetaNode(d) == [addr : Addrs, tcp : Addrs, rand : Rands]
-ArgsSetMetaNode(d) == [addr : Addrs, tcp : Addrs, rand : Rands]
+ArgsCreateMetaNode(d) == {[addr |-> p.addr, tcp |-> p.tcp, rand |-> r] : p \in AddrPairs, r \in Rands}
+ArgsSetMetaNode(d) == ArgsCreateMetaNode(d)
 ArgsDeleteMetaNode(d) == [id : NodeIds(d)]
 ArgsNoop(d) == {[x |-> 0]}
 ArgsCreateContinuousQuery(d) == [db : DbN, name : ObjN, q : Queries]
@@ -488,6 +490,7 @@ InitMd ==
     [] InitKind = "rp2"   -> BaseRp(2, 2 * Hour)
     [] InitKind = "rp2n3" -> WithNodes(BaseRp(2, 2 * Hour), 3)
     [] InitKind = "rp1n2" -> WithNodes(BaseRp(1, 2 * Hour), 2)
+    [] InitKind = "rp1n1" -> WithNodes(BaseRp(1, 2 * Hour), 1)
 Init == md = InitMd
 
 On(t) == t \in Cmds
